@@ -1,11 +1,39 @@
 """C17  Cases are independent; suite contents apply alike standalone and in a suite run.
 
-Kernels (DESIGN.md section 4, C17):
+Kernels (DESIGN.md section 4, C17; K4 and K5 were added while writing the harness):
   K1  documents.  `_TestCaseInstructionsFromTestSuiteAdder.transform` (through `resolve_test_case_handling_setup`, i.e.
       composed with the default transformer) on documents of labelled elements: for each of the six phases the number
       of elements the suite supplies and the number the case holds are symbolic.  `_separate_configuration_elements`
       / `derive_conf_section_environment` on a [conf] section whose elements are symbolic selectors over
       {preprocessor instruction, case configuration instruction, comment, empty line}.
+  K2  leakage, execution harness.  A sequence of stub cases on ONE real case executor
+      (`processors.new_executor_that_should_not_pollute_current_processes`, what `exactly suite` uses for the cases of a
+      suite).  One instruction of every case but the last misbehaves - symbolic choice out of everything an instruction
+      can reach through what it is handed: the settings' environ (set / unset / change / replace), the timeout (symbolic
+      integer / none), the symbol table (new / overwritten symbol), the cwd, files in act/ and tmp/, the settings of the
+      act phase (environ, stdin), the configuration builder (actor, status, home) - and then ends with a symbolic fault
+      kind.  Every step of every case probes, until the case's own misbehaviour, that all of it has the configured
+      initial value (configured timeout: symbolic integer or none).
+  K3  standalone vs in a suite, whole program.  Suite and case files on disk; the suite supplies contents for a subset
+      of {conf (actor, status), setup, act, before-assert, assert, cleanup} and possibly a preprocessor, the case holds
+      its own in a subset.  The REAL MainProgram.execute runs `suite SUITE`, `--suite SUITE CASE` and `CASE` (beside
+      exactly.suite / no suite / another exactly.suite beside the case / case of a sub-suite).  A recording stand-in for
+      `subprocess` shows the order in which the instructions run, the interpreter / source the actor uses and what the
+      preprocessor did.  Oracle: absolute (suite contents first, after in cleanup, the case's [conf] wins, nothing of a
+      suite in the cases of its sub-suites), hence identical in all three ways.
+  K4  histories, whole program.  A suite of 2-3 REAL cases out of a catalogue of cases that change settings (env, cd,
+      timeout, def, files, env -of act, stdin, actor / status; early, late, before a hard error / failure) and cases
+      that observe; every case of the suite run must be observed (identifier; argv, cwd, environment, timeout, stdin,
+      sandbox listing of every process it starts) exactly as when it is run alone with `--suite`, its first instruction
+      must see the pristine state, and it must end as documented.
+  K5  instructions of a suite that use symbols of the case.  The instruction objects of a suite file are parsed once
+      and executed in every case: a suite instruction that refers to symbols which each of the two cases of the suite
+      defines differently (catalogue of forms: one per type of value and per kind of use) must behave in each case as
+      when the case is run alone with `--suite`.
+
+Region (known_findings.json) in which exactly violates the statement on the pinned tree:
+  suite-instruction-line-nums-memo   `filter -line-nums RANGE` with RANGE given by a symbol, written in a suite file: the
+                                     ranges computed for the first case that runs are kept for the later cases
 """
 from typing import List
 
@@ -100,11 +128,11 @@ def _k1_obligations(tier: str) -> List[Ob]:
     C_ALL = ('c0', 'c1', 'c2', 'c3', 'c4', 'c5')
     entry = 'resolve_test_case_handling_setup(suite document, default).transformer.transform(case)'
     kq = 1
-    obs.append(Ob(name='K1:transform:suite-subsets', fn='k1_transform', case=dict(kmax=kq, tie=(C_ALL,)), kernel='K1',
+    obs.append(Ob(name='K1:transform:suite-subsets', fn='k1_transform', selector=True, case=dict(kmax=kq, tie=(C_ALL,)), kernel='K1',
                   timeout=400, real=REAL_K1, entry=entry,
                   bound='every subset of the six phases in which the suite supplies an element x the case holds an element '
                         'in every phase / in no phase; ' + names))
-    obs.append(Ob(name='K1:transform:case-subsets', fn='k1_transform', case=dict(kmax=kq, tie=(S_ALL,)), kernel='K1',
+    obs.append(Ob(name='K1:transform:case-subsets', fn='k1_transform', selector=True, case=dict(kmax=kq, tie=(S_ALL,)), kernel='K1',
                   timeout=400, real=REAL_K1, entry=entry,
                   bound='every subset of the six phases in which the case holds an element x the suite supplies an element '
                         'in every phase / in no phase; ' + names))
@@ -112,25 +140,25 @@ def _k1_obligations(tier: str) -> List[Ob]:
         # all 4096 pairs of subsets, split by the suite's conf / setup bits
         for a in (0, 1):
             for b in (0, 1):
-                obs.append(Ob(name='K1:transform:s0=%d,s1=%d' % (a, b), fn='k1_transform',
+                obs.append(Ob(name='K1:transform:s0=%d,s1=%d' % (a, b), fn='k1_transform', selector=True,
                               case=dict(kmax=1, fixed=dict(s0=a, s1=b)), kernel='K1', timeout=900,
                               bound='every subset of the six phases in which the suite supplies one element (conf: %d, '
                                     'setup: %d) x every subset in which the case holds one; %s' % (a, b, names),
                               real=REAL_K1, entry=entry))
-        obs.append(Ob(name='K1:transform:suite-counts', fn='k1_transform', case=dict(kmax=2, tie=(C_ALL,)), kernel='K1',
+        obs.append(Ob(name='K1:transform:suite-counts', fn='k1_transform', selector=True, case=dict(kmax=2, tie=(C_ALL,)), kernel='K1',
                       timeout=2000, real=REAL_K1, entry=entry,
                       bound='0..2 elements per phase from the suite, independently per phase x the case holds 0 / 1 / 2 '
                             'elements in every phase; ' + names))
-        obs.append(Ob(name='K1:transform:case-counts', fn='k1_transform', case=dict(kmax=2, tie=(S_ALL,)), kernel='K1',
+        obs.append(Ob(name='K1:transform:case-counts', fn='k1_transform', selector=True, case=dict(kmax=2, tie=(S_ALL,)), kernel='K1',
                       timeout=2000, real=REAL_K1, entry=entry,
                       bound='0..2 elements per phase in the case, independently per phase x the suite supplies 0 / 1 / 2 '
                             'elements for every phase; ' + names))
-    obs.append(Ob(name='K1:transform:default-transformer', fn='k1_transform',
+    obs.append(Ob(name='K1:transform:default-transformer', fn='k1_transform', selector=True,
                   case=dict(kmax=1, default_marks=True, fixed=dict(s0=1, c0=1, s2=0, c2=1, s3=1, c3=0)), kernel='K1', timeout=600,
                   bound='a default transformer that marks the case (appends one element to every phase) is applied before '
                         'the contents of the suite are added; subsets of setup, assert, cleanup (suite x case)',
                   real=REAL_K1))
-    obs.append(Ob(name='K1:transform:seeded-oracle-error', fn='k1_transform',
+    obs.append(Ob(name='K1:transform:seeded-oracle-error', fn='k1_transform', selector=True,
                   case=dict(kmax=1, oracle_bug=True, fixed=dict(s0=0, s1=0, s2=0, c0=0, c1=0, c2=0)), kernel='K1',
                   timeout=300, expect=ob.REFUTE, bound='seeded oracle error: suite contents expected after the case\'s in assert',
                   real=REAL_K1))
@@ -576,5 +604,216 @@ def _k4_obligations(tier: str) -> List[Ob]:
     return obs
 
 
+# --------------------------------------------------------------------------- K5
+
+REAL_K5 = (
+    'exactly_lib.cli.main_program.MainProgram.execute_test_suite',
+    'exactly_lib.test_suite.file_reading.suite_file_reading._TestCaseInstructionsFromTestSuiteAdder',
+    'exactly_lib.test_suite.processing.SuitesExecutor._process_single_sub_suite',
+    'exactly_lib.processing.processors._Executor.apply',
+    'exactly_lib.execution.partial_execution.impl.symbol_validation.SymbolsValidator',
+    'exactly_lib.impls.types.string_transformer.impl.filter.line_nums.resolvers.sdv',
+    'exactly_lib.impls.types.string_transformer.impl.filter.line_nums.resolvers._RangeExprHandler',
+    'exactly_lib.impls.types.string_transformer.impl.filter.line_matcher',
+    'exactly_lib.impls.types.string_transformer.impl.replace.setup',
+    'exactly_lib.impls.types.regex.parse_regex',
+    'exactly_lib.impls.types.integer.integer_sdv',
+    'exactly_lib.impls.types.matcher.impls.symbol_reference',
+    'exactly_lib.impls.types.string_transformer.sdvs',
+    'exactly_lib.impls.types.program.parse.parse_program',
+    'exactly_lib.type_val_deps.types.string_.string_sdv.StringSdv',
+    'exactly_lib.type_val_deps.types.list_.list_sdv.ListSdv',
+    'exactly_lib.type_val_deps.types.path.path_sdv_impls.path_rel_symbol',
+)
+
+
+def _pre_k5(form: int, b_first: bool) -> bool:
+    c = ob.case()
+    if not _in(form, c['forms']):
+        return False
+    if 'b_first' in c and b_first != c['b_first']:
+        return False
+    if ob.excluded(L.REGION_LINE_NUMS_MEMO) and form == L.SYMBOL_FORM_NAMES.index(L.FORM_IN_REGION_LINE_NUMS_MEMO):
+        # known finding: `filter -line-nums` keeps the ranges it computed from the symbols of the first case that
+        # executes the (shared) instruction object of the suite
+        return False
+    return True
+
+
+def k5_suite_symbols(form: int, b_first: bool) -> bool:
+    """
+    pre: _pre_k5(form, b_first)
+    post: _
+    """
+    c = ob.case()
+    name = L.SYMBOL_FORM_NAMES[ob.concrete_int(form, 0, len(L.SYMBOL_FORM_NAMES) - 1)]
+    obs = L.symbol_form_observe(name, ob.concrete_bool(b_first), bool(c.get('oracle_bug')))
+    return ob.post(L.symbol_form_ok(obs))
+
+
+FORM_GROUPS = (
+    ('program-arguments+settings', ('string in a program argument', 'list in program arguments', 'program symbol',
+                                    'env value from symbol', 'timeout from symbol', 'cd to directory from symbol',
+                                    'text from a here document with a symbol', 'text-source symbol')),
+    ('filter+replace', ('filter -line-nums RANGE-FROM-SYMBOL', 'filter line-num == INTEGER-FROM-SYMBOL',
+                        'filter contents matches REGEX-FROM-SYMBOL', 'replace REGEX-FROM-SYMBOL', 'text-transformer symbol',
+                        'line-matcher symbol')),
+    ('matchers+paths', ('text-matcher symbol', 'integer-matcher symbol', 'file-matcher symbol', 'files-matcher symbol',
+                        'files-condition symbol', 'path symbol', 'exit-code == INTEGER-FROM-SYMBOL',
+                        'file relative to the home directory of the case')),
+)
+
+
+def _k5_obligations(tier: str) -> List[Ob]:
+    obs = []
+    what = ('a suite supplies an instruction that refers to symbols which each of its two cases defines differently; each '
+            'case must be observed in the suite run (identifier, processes started, probe files) exactly as when it is run '
+            'alone with `--suite`, and must PASS')
+    idx = L.SYMBOL_FORM_NAMES.index
+    grouped = [f for _n, fs in FORM_GROUPS for f in fs]
+    if sorted(grouped) != sorted(L.SYMBOL_FORM_NAMES):
+        raise RuntimeError('harness error: FORM_GROUPS does not partition the catalogue of forms')
+    for gname, forms in FORM_GROUPS:
+        c = dict(forms=tuple(idx(f) for f in forms))
+        if tier == 'quick':
+            c['b_first'] = False
+        obs.append(Ob(name='K5:suite-symbols:%s' % gname, fn='k5_suite_symbols', case=c, kernel='K5',
+                      timeout=1500, selector=True,
+                      bound='instruction forms %s; %s; %s' % (list(forms), 'case a listed first' if tier == 'quick' else
+                      'both orders of the two cases', what),
+                      real=REAL_K5, stubs=(STUB_SUBPROCESS, STUB_CLI_ENV),
+                      outside=('instruction forms outside the catalogue of %d' % len(L.SYMBOL_FORM_NAMES),),
+                      entry="MainProgram.execute(['suite', SUITE]) vs MainProgram.execute(['--suite', SUITE, CASE]) per case"))
+    obs.append(Ob(name='K5:seeded-oracle-error', fn='k5_suite_symbols',
+                  case=dict(forms=(idx('string in a program argument'),), b_first=False, oracle_bug=True), kernel='K5',
+                  timeout=600, selector=True, expect=ob.REFUTE, real=REAL_K5,
+                  bound='seeded oracle error: the second case is expected to be observed like the first one'))
+    return obs
+
+
 def obligations(tier: str) -> List[Ob]:
-    return _k1_obligations(tier) + _k2_obligations(tier) + _k3_obligations(tier) + _k4_obligations(tier)
+    return (_k1_obligations(tier) + _k2_obligations(tier) + _k3_obligations(tier) + _k4_obligations(tier)
+            + _k5_obligations(tier))
+
+
+# --------------------------------------------------------------------------- self-test (stubs and reference oracles)
+
+def selftest(tier) -> int:
+    """Concrete comparison of the stand-ins and the reference oracles with the real things (not part of the deciding
+    step): the subprocess recorder against a real child process (what it inherits), the preprocessor stand-in against a
+    real preprocessor program run by the real PreprocessorViaExternalProgram, the reference oracles of K1 / K3 against
+    the real code on a spread of concrete arguments, the documented outcomes of the K4 / K5 reference cases."""
+    import itertools
+    import json
+    import os
+    import subprocess
+    import sys
+    from vsym import scratch
+    n = 0
+    # ---- recorder vs a real child: cwd and environment are inherited / replaced as recorded
+    work = os.path.realpath(scratch.new_dir('c17self'))
+    script = 'import os, json; print(json.dumps([os.getcwd(), sorted((k, v) for k, v in os.environ.items() if k.startswith("VSYM_C17_"))]))'
+    w = L.World({'x/placeholder': ''})
+    cwd = os.getcwd()
+    os.environ['VSYM_C17_SELFTEST'] = 'inherited'
+    try:
+        for env in (None, {'VSYM_C17_SELFTEST': 'explicit', 'PATH': os.environ.get('PATH', '')}):
+            os.chdir(work)
+            with open(os.path.join(work, 'out.txt'), 'w') as f:
+                subprocess.call([sys.executable, '-c', script], env=env, stdout=f)
+            w.log.clear()
+            w.call(['child'], env=env)
+            os.chdir(cwd)
+            real_cwd, real_env = json.load(open(os.path.join(work, 'out.txt')))
+            ev = w.log[0]
+            if ev.where != real_cwd or [list(x) for x in ev.env_view] != real_env:
+                raise AssertionError('recorder differs from a real child: %r vs %r' % (ev, (real_cwd, real_env)))
+            n += 1
+    finally:
+        os.chdir(cwd)
+        del os.environ['VSYM_C17_SELFTEST']
+    # ---- preprocessor stand-in vs a real preprocessor program through the real PreprocessorViaExternalProgram
+    import pathlib
+    from exactly_lib.processing import preprocessor
+    pp_src = 'import sys\nprint(open(sys.argv[2]).read().replace("%s", "pp" + sys.argv[1]), end="")\n' % L.PP_TOKEN
+    with open(os.path.join(work, 'pp.py'), 'w') as f:
+        f.write(pp_src)
+    case_text = L.case_file_text(L.Contents('c', 63))
+    with open(os.path.join(work, 'c.case'), 'w') as f:
+        f.write(case_text)
+    real = preprocessor.PreprocessorViaExternalProgram([sys.executable, os.path.join(work, 'pp.py'), 'X']).apply(
+        pathlib.Path(work) / 'c.case', case_text)
+    saved = (preprocessor.subprocess, preprocessor.tempfile)
+    preprocessor.subprocess = w
+    try:
+        stub = preprocessor.PreprocessorViaExternalProgram(['pp-X']).apply(pathlib.Path(work) / 'c.case', case_text)
+    finally:
+        preprocessor.subprocess, preprocessor.tempfile = saved
+    if real != stub or 'ppX' not in stub:
+        raise AssertionError('preprocessor stand-in differs from a real preprocessor program')
+    n += 1
+    w.close()
+    scratch.remove(work)
+    # ---- K1 reference oracle vs the real transformer
+    for sc in itertools.product((0, 1, 2), repeat=6):
+        cc = tuple(reversed(sc))
+        for dm in (False, True):
+            if L.transform_labelled(sc, cc, dm) != L.expected_labels(sc, cc, False, dm):
+                raise AssertionError('K1 oracle: %r %r' % (sc, cc))
+            n += 1
+    for k in range(4):
+        for kinds in itertools.product(range(len(L.CONF_KINDS)), repeat=k):
+            if L.conf_section_observed(kinds) != L.conf_section_expected(kinds):
+                raise AssertionError('K1 conf oracle: %r' % (kinds,))
+            n += 1
+    # ---- K2: a clean pair of cases has nothing to report; the stub world reports what is planted
+    seq = L.run_sequence([L.CaseSpec(0, L.MUT_CELLS[0], 0), L.CaseSpec(0, L.MUT_CELLS[0], 0)], True, 60)
+    if seq.problems or any(co.problems or co.status != 'PASS' or co.trace != L.full_trace() for co in seq.cases):
+        raise AssertionError('K2: clean sequence reports %r' % ([co.problems for co in seq.cases],))
+    n += 1
+    # ---- K3 reference oracle vs the real program
+    combos = [('beside', 63, True, 63, 0, False), ('beside', 0, False, 0, 0, False), ('beside', 5, True, 58, 0, False),
+              ('named', 42, True, 21, 0, False), ('both', 21, True, 63, 42, True), ('sub', 63, True, 42, 21, True),
+              ('sub', 36, False, 5, 0, False), ('beside', 4, False, 4, 0, False)]
+    for lay, s, pp, c, b, bpp in combos:
+        if not L.k3_ok(L.k3_observe(lay, L.Contents('s', s, pp), L.Contents('c', c), L.Contents('b', b, bpp))):
+            raise AssertionError('K3 oracle: %r' % ((lay, s, pp, c, b, bpp),))
+        n += 1
+    # ---- K4 / K5: the reference cases end as the manual says when run alone
+    for k in L.HISTORY_KINDS:
+        if L.history_reference(k)[0] != L.HISTORY_IDENTIFIER[k]:
+            raise AssertionError('K4 reference case %s ends with %s' % (k, L.history_reference(k)[0]))
+        n += 1
+    for f in L.SYMBOL_FORM_NAMES:
+        for c in 'ab':
+            if L.symbol_form_reference(f, c)[0] != 'PASS':
+                raise AssertionError('K5 reference case %s / %s ends with %s' % (f, c, L.symbol_form_reference(f, c)[0]))
+            n += 1
+    return n
+
+
+ASSUMPTIONS = [
+    'subprocess.call is the only way exactly_lib starts processes (process_executor.py, processing/preprocessor.py); it is '
+    'replaced by a recorder that starts nothing.  Contract assumed: the child gets exactly the argv, inherits the cwd of '
+    'the calling process at the time of the call and os.environ unless env= is given; a preprocessor program gets the name '
+    'of the case file, runs in its directory and writes the preprocessed case to stdout',
+    'sandbox directories come from the resolver handed to MainProgram / sandbox_dir_resolving.mk_tmp_dir_with_prefix '
+    '(counter-named directories instead of mkdtemp: CrossHair makes random symbolic); the preprocessor\'s temporary files '
+    'get counter-based names; a deterministic clock replaces datetime.now in the suite reporters; PurePath.__hash__ '
+    'work-around of harness/_C16_lib',
+    'K2: the stub instructions / actor use only the public base classes; they stand for every instruction an instruction '
+    'set could hold - they may do more than the instructions of the default set do (e.g. overwrite a predefined symbol)',
+    'K3, K4, K5: all symbolic variables are selectors over finite catalogues: the verdict is the exhaustion certificate of '
+    'the path tree; K1: element counts per phase (0..2); K2: the timeouts are unbounded integers',
+    'the outcome of a case = its exit identifier + everything it hands to the OS when starting processes (argv, cwd, '
+    'environment, timeout, stdin, the files in act/ and tmp/ at that moment)',
+]
+
+OUTSIDE = [
+    'what real child processes would do (nothing is started); preprocessing by real external programs (self-test only)',
+    'leakage through channels the executor does not hand to instructions: os.environ of the Exactly process itself, '
+    'chdir by a [conf] instruction, files outside the sandbox (home directory)',
+    'whether a sandbox directory is a new one (a directory that is removed and created again carries nothing over)',
+    'suites deeper than one level of sub-suites; more than 3 cases per suite run; contents other than the catalogues',
+    'the reporters (C16), the presentation of file names, timing',
+]
